@@ -77,7 +77,7 @@ static inline uint64_t term_bc(uint64_t x, uint32_t y0, uint32_t y1, int k) {
 typedef void (*prod_f)(void*, uint64_t, void*, const void*, const void*);
 struct PF { const char* name; int kind; prod_f f; };  // kind 0 baa 1 bbb 2 bbc 3 x2-1col 4 x2-2cols
 
-static void run_product(Ctx& ctx, const PF& pf, int fam, void* pc, int sd) {
+static void run_product(Ctx& ctx, const PF& pf, int fam, void* pc, int sd, bool same = false) {
   Rng rng(ctx.args.seed * 7919 + fam * 131 + pf.kind);
   const int kind = pf.kind;
   const uint64_t xw = kind <= 2 ? 4 : 8;                       // uint64 per x element
@@ -87,6 +87,9 @@ static void run_product(Ctx& ctx, const PF& pf, int fam, void* pc, int sd) {
   if (kind == 0) { fill_a(X.as<uint64_t>(), L, fam, rng); fill_a(Y.as<uint64_t>(), L, (fam == F_SINGLE) ? F_ALLMAX : fam, rng); }
   else if (kind == 1) { fill_b(X.as<uint64_t>(), L, fam, rng); fill_b(Y.as<uint64_t>(), L, (fam == F_SINGLE) ? F_ALLMAX : fam, rng); }
   else { fill_b(X.as<uint64_t>(), L * (xw / 4), fam, rng); fill_c(Y.as<uint32_t>(), L * (yw / 4), (fam == F_SINGLE) ? F_ALLMAX : fam, rng); }
+  // same: the two operands are ONE array passed twice (x == y by pointer: a sum of squares, or b words read as c words)
+  if (same) { if (X.bytes != Y.bytes) return; memcpy(Y.p, X.p, X.bytes); }
+  const void* ycall = same ? (const void*)X.p : (const void*)Y.p;
   std::vector<uint8_t> xs(X.p, X.p + X.bytes), ys(Y.p, Y.p + Y.bytes);
   // running sums modulo each prime for each result slot
   uint64_t acc[4][4] = {{0}};
@@ -94,14 +97,14 @@ static void run_product(Ctx& ctx, const PF& pf, int fam, void* pc, int sd) {
   // chunked case ids: 100 ells per case; acc holds the exact sum of the terms < ell
   for (uint64_t lo = 0; lo <= L; lo += 100) {
     uint64_t hi = std::min<uint64_t>(L, lo + 99);
-    std::string id = sfmt("product|%s|%s|seed+%d|ell=%llu..%llu", pf.name, FN[fam], sd, (unsigned long long)lo, (unsigned long long)hi);
+    std::string id = sfmt("product|%s|%s%s|seed+%d|ell=%llu..%llu", pf.name, FN[fam], same ? "|same pointer for both operands" : "", sd, (unsigned long long)lo, (unsigned long long)hi);
     bool run = ctx.want(id);
     if (run) ctx.begin_case(id);
     bool bad = false;
     for (uint64_t ell = lo; ell <= hi; ++ell) {
       if (run && !bad) {
         prefill(R.p, R.bytes, 1);
-        pf.f(pc, ell, R.p, X.p, Y.p);
+        pf.f(pc, ell, R.p, X.p, ycall);
         for (int s = 0; s < nres && !bad; ++s) for (int k = 0; k < 4; ++k) {
           uint64_t got = R.as<uint64_t>()[4 * s + k] % QS[k];
           if (got != acc[s][k]) { ctx.violation(id, sfmt("ell=%llu result %d lane %d is %llu mod q, exact sum is %llu", (unsigned long long)ell, s, k, (unsigned long long)got, (unsigned long long)acc[s][k])); bad = true; break; }
@@ -412,13 +415,18 @@ int main(int argc, char** argv) {
     run_product(c, pf, fam, pc, sd);
     c.args.seed = save;
   }, "products");
+  ctx.parallel((uint64_t)nf * NFAM, [&](uint64_t i) {
+    const PF& pf = tab[i % nf];
+    if (pf.kind == 4) return;  // operands of different extents
+    run_product(ctx, pf, (int)(i / nf), pf.kind == 0 ? (void*)paa : pf.kind == 1 ? (void*)pbb : (void*)pbc, 0, true);
+  }, "products, one array passed as both operands");
   ctx.parallel((uint64_t)nf * 3, [&](uint64_t i) { const PF& pf = tab[i % nf]; run_small_scope(ctx, pf, pf.kind == 0 ? (void*)paa : pf.kind == 1 ? (void*)pbb : (void*)pbc, (int)(i / nf) + 1); }, "complete small scopes");
   ctx.parallel(1, [&](uint64_t) { run_conversions(ctx); }, "conversions");
   ctx.parallel(64, [&](uint64_t part) { run_residue_sweep(ctx, part); }, "c-layout conversions on every residue");
   ctx.assumptions = {"default 30-bit prime set", "c-layout operands that are not canonical pairs are judged against the defined value x_lo*y0 + x_hi*y1",
                      "ell in [0, 10000] (MAX_ELL)"};
   return ctx.finish("exploration",
-                    "every ell in 0..10000 (grouped 100 per case id) x 10 product functions x 6 operand families (seeded canonical / lazy, all-maximal, alternating, single maximal, zero); "
+                    "every ell in 0..10000 (grouped 100 per case id) x 10 product functions x 6 operand families (seeded canonical / lazy, all-maximal, alternating, single maximal, zero), the same with ONE array passed as both operands; "
                     "conversions on an int64 / lazy-lane alphabet incl. all pairs for the additions; centred lift on boundary and seeded 120-bit values in 3 lane representations; "
                     "block extract/save on every block index; non-trivial unless all operands are zero; distinct = distinct case ids",
                     true);
